@@ -354,8 +354,8 @@ def client (env : Env) (remote : Bool) (m : PathMsg) : Out :=
     let c := created env remote p
     let code : Int := if c.isSome then 0 else -1
     if env.sendOk = false then
-      -- the clean-up is registered only after the result was sent: the root is closed, nothing removed
-      ⟨effOf .mkdir c, some code, .error .sendResult⟩
+      -- the clean-up is registered before the result is sent: it runs on this return path too
+      ⟨effOf .mkdir c ++ effOf .remove c, some code, .error .sendResult⟩
     else
       ⟨effOf .mkdir c ++ effOf .remove c, some code,
         match env.srv with
